@@ -246,3 +246,114 @@ def join_functions(start=0):
         out.append({'name': name, 'family': 'join', 'optype': 'str', 'cls': 'join%d' % i, 'src': 'def %s(a, b, c):\n    return %s\n' % (name, body),
                     'pyx': 'def %s(list a, str b, str c):\n    return %s\n' % (name, body) if i % 2 else None})
     return out
+
+
+# ---------------------------------------------------------------------------------------------------------------------
+# repeated fields: one f-string (or a %-template with a tuple literal, which the compiler turns into one) that formats
+# the SAME simple local name several times with every pair of conversions / with and without specs. The compiler
+# merges repeated fields of "safe" operands (C values, known builtin types, declared or inferred) into one
+# evaluation, so the cells are: operand kind (how the name got its type) x which parts differ between the
+# occurrences of a name (conversion, spec, nothing).
+CONVS = ['', '!s', '!r', '!a']
+CONV_PAIRS = [(a, b) for a in CONVS for b in CONVS]
+
+# kind -> (pyx signature or None, py signature, prologue lines, field names, operand class for specs)
+REPEAT_KINDS = {
+    'str': ('str x, str y', 'x, y', [], 'xy', 'str'),
+    'bytes': ('bytes x, bytes y', 'x, y', [], 'xy', 'obj'),
+    'list': ('list x, list y', 'x, y', [], 'xy', 'obj'),
+    'tuple': ('tuple x, tuple y', 'x, y', [], 'xy', 'obj'),
+    'dict': ('dict x, dict y', 'x, y', [], 'xy', 'obj'),
+    'ucs4': ('Py_UCS4 x, Py_UCS4 y', 'x, y', [], 'xy', 'str'),
+    'cint': ('int x, int y', 'x, y', [], 'xy', 'int'),
+    'clong': ('long x, long y', 'x, y', [], 'xy', 'int'),
+    'cdouble': ('double x, double y', 'x, y', [], 'xy', 'float'),
+    'cbint': ('bint x, bint y', 'x, y', [], 'xy', 'int'),
+    'cdef-str': ('x, y', 'x, y', ['cdef str u = x', 'cdef str v = y'], 'uv', 'str'),
+    'pyx-obj': ('x, y', 'x, y', [], 'xy', 'any'),
+    'py-obj': (None, 'x, y', [], 'xy', 'any'),
+    'py-annot-str': (None, 'x: str, y: str', [], 'xy', 'str'),
+    'py-local-str': (None, 'x, y', ['u = str(x)', 'v = str(y)'], 'uv', 'str'),
+    'py-local-repr': (None, 'x, y', ['u = repr(x)', 'v = ascii(y)'], 'uv', 'str'),
+    'py-local-list': (None, 'x, y', ['u = [x, y]', 'v = [y]'], 'uv', 'obj'),
+    'py-local-tuple': (None, 'x, y', ['u = (x, y)', 'v = (y,)'], 'uv', 'obj'),
+    'py-local-dict': (None, 'x, y', ["u = {'k': x}", "v = {'j': y}"], 'uv', 'obj'),
+    'py-local-lit': (None, 'x, y', ["u = 'h\\xe9\\'l' if x else '\\u20ac\"'", 'v = str(y)'], 'uv', 'str'),
+}
+REPEAT_SPECS = {
+    'str': ['>8', '<6', '^7', '10', '.2', '*>9', 's'],
+    'int': ['3', '5d', 'x', '>4', '04', 'd'],
+    'float': ['.2f', '8.3e', 'g', '>9'],
+    'obj': ['', '>8'],
+    'any': ['>8', '5', ''],
+}
+C_REPEAT_KINDS = ('ucs4', 'cint', 'clong', 'cdouble', 'cbint')
+
+
+def repeat_shape(fields):
+    """which parts differ between the occurrences of one name: conv / spec / dup (identical) - or 'single'"""
+    parts = set()
+    by = {}
+    for name, conv, spec in fields:
+        by.setdefault(name, []).append((conv.replace('!s', ''), spec))
+    for occ in by.values():
+        for i in range(len(occ)):
+            for j in range(i + 1, len(occ)):
+                (c1, s1), (c2, s2) = occ[i], occ[j]
+                if c1 != c2:
+                    parts.add('conv')
+                if s1 != s2:
+                    parts.add('spec')
+                if c1 == c2 and s1 == s2:
+                    parts.add('dup')
+    return '+'.join(sorted(parts)) or 'single'
+
+
+def repeat_functions(rng, n, start=0):
+    out = []
+    kinds = list(REPEAT_KINDS)
+    pairs = {k: rng.sample(CONV_PAIRS, len(CONV_PAIRS)) for k in kinds}
+    for i in range(n):
+        kind = kinds[i % len(kinds)]
+        pyxsig, pysig, prologue, names, opclass = REPEAT_KINDS[kind]
+        c1, c2 = pairs[kind][(i // len(kinds)) % len(CONV_PAIRS)]
+        a, b = names[0], names[1]
+
+        def spec_for(conv):
+            if rng.random() < .7:
+                return ''
+            if kind in C_REPEAT_KINDS and conv:
+                return ''        # conversion + spec on a C operand is a recorded finding of its own (conversion dropped)
+            return rng.choice(REPEAT_SPECS['str' if conv else opclass])
+        # the stratified pair: the same name twice; specs only on a minority so that the bare pair stays frequent
+        fields = [(a, c1, spec_for(c1) if rng.random() < .25 else ''), (a, c2, spec_for(c2) if rng.random() < .25 else '')]
+        for _ in range(rng.choice([0, 0, 1, 1, 2])):
+            conv = rng.choice(CONVS)
+            fields.insert(rng.randrange(len(fields) + 1), (rng.choice([a, a, b]), conv, spec_for(conv)))
+        name = 'fz%dz' % (start + i)
+        pct = rng.random() < .25
+        if pct:
+            # '%s|%r' % (u, u): literal template and tuple literal -> rewritten into an f-string by the compiler
+            tp = []
+            for nm, conv, spec in fields:
+                t = {'': 's', '!s': 's', '!r': 'r', '!a': 'a'}[conv]
+                if not conv and opclass == 'int' and kind != 'cbint' and rng.random() < .5:
+                    t = 'd'
+                width = rng.choice(['', '', '7', '-6'])
+                if kind in C_REPEAT_KINDS and t in 'sra':
+                    width = ''   # %7s / %7r of a C operand = conversion + spec: recorded finding of its own (see spec_for)
+                tp.append('%' + width + t)
+            fields = [(nm, conv, tpl[1:]) for (nm, conv, _), tpl in zip(fields, tp)]
+            seps = [rng.choice(['', '|', ' and ', '\xe9=', '%%']) for _ in range(len(tp) + 1)]
+            tmpl = ''.join(s + t for s, t in zip(seps, tp)) + seps[-1]
+            expr = '%r %% (%s,)' % (tmpl, ', '.join(nm for nm, _, _ in fields))
+        else:
+            seps = [rng.choice(['', '|', ' and ', '\xe9=', '{{', '}}']) for _ in range(len(fields) + 1)]
+            text = ''.join(s + '{%s%s%s}' % (nm, conv, ':' + spec if spec else '') for s, (nm, conv, spec) in zip(seps, fields)) + seps[-1]
+            expr = 'f%r' % text
+        body = ''.join('    %s\n' % ln for ln in prologue) + '    return %s\n' % expr
+        src = 'def %s(%s):\n%s' % (name, pysig, body.replace('cdef str ', ''))
+        pyx = 'def %s(%s):\n%s' % (name, pyxsig, body) if pyxsig is not None else None
+        out.append({'name': name, 'family': 'repeat', 'optype': kind, 'kind': kind, 'form': 'pct' if pct else 'fstr',
+                    'cls': ('pct' if pct else 'fstr') + ':' + repeat_shape(fields), 'src': src, 'pyx': pyx, 'fields': fields})
+    return out
